@@ -36,6 +36,7 @@ def run_spec(
     kappa_max_exp: float = 4.0,
     maxcor_max: int = 10,
     units: bool = False,
+    extras: bool = False,
 ):
     mode = draw(st.sampled_from(list(jac_modes)))
     fams = list(families)
@@ -56,6 +57,21 @@ def run_spec(
         cfg["eps"] = draw(st.sampled_from([1e-8, 1e-6]))
     elif mode in ("2-point", "3-point", "cs"):
         cfg["finite_diff_rel_step"] = draw(st.sampled_from([None, 1e-7]))
+    if extras:
+        # options that no listed invariant depends on: they must not break any of them
+        n = p["obj"]["n"]
+        if draw(st.integers(0, 2)) == 0:
+            r["args"] = [draw(st.integers(-5, 5)), "tag"]
+        if draw(st.integers(0, 3)) == 0:
+            cfg["max_steplength"] = draw(st.sampled_from([1e8, 10.0, 1.0, 0.1]))
+        if draw(st.integers(0, 3)) == 0:
+            cfg["ftol_linesearch"] = draw(st.sampled_from([1e-4, 1e-3, 1e-2]))
+            cfg["gtol_linesearch"] = draw(st.sampled_from([0.1, 0.5, 0.9]))
+            cfg["xtol_linesearch"] = draw(st.sampled_from([0.1, 1e-3]))
+        if mode is None and draw(st.integers(0, 2)) == 0:
+            cfg["eps"] = [draw(st.sampled_from([1e-8, 1e-6, 1e-4])) for _ in range(n)]
+        if mode in ("2-point", "3-point", "cs") and draw(st.integers(0, 2)) == 0:
+            cfg["finite_diff_rel_step"] = [draw(st.sampled_from([1e-7, 1e-5])) for _ in range(n)]
     if with_scaler:
         k = draw(st.sampled_from(["none", "none", "const", "unit"]))
         if k == "const":
@@ -106,6 +122,8 @@ def execute(rspec: Dict[str, Any], *, prob: Optional[Problem] = None, **over) ->
         kw["callback"] = "passive"
     elif isinstance(cb, int):
         kw["callback"] = [False] * cb + [True]
+    if "args" in rspec:
+        kw["extra"] = dict(kw.get("extra") or {}, args=tuple(rspec["args"]))
     kw.update(over)
     cfg = dict(rspec["cfg"])
     cfg.update(kw.pop("cfg_over", {}))
